@@ -226,6 +226,8 @@ func runC07(c *report.Ctx) {
 	c.Clause("5 no lock held by hand across a panic")
 	checkManualLockRegions(c, sites)
 	checkLockPairing(c)
+	checkNoNewWaitUnderLock(c)
+	checkSingleAcquisition(c)
 	c.Clause("6 the substitute error reply cannot panic; shutdown cannot wait for an extension that never started")
 	checkReplySinkGuards(c) // trySendDefaultErrorResponse tolerates exactly the refusals the sink returns for a stale id
 	checkShutdownAgents(c)  // wg.Add per started extension only: reset/shutdown return
